@@ -206,6 +206,61 @@ fn close_number_ordering(rep: &mut Report, args: &Args) {
     }
 }
 
+/// Array sizes are a dimension of "all documents": every array-consuming core form over
+/// arrays of 0..=130 elements and around the powers of two up to 1024, against the
+/// reference evaluator (implementations switch strategy at size thresholds: inline
+/// buffers, chunked copies, pre-sized allocations).
+fn size_sweep(rep: &mut Report, args: &Args, ev: &Evaluator, strict: &Opts) {
+    const EXPRS: [&str; 26] = [
+        "xs[*]", "xs[]", "xs[?@ >= `0`]", "xs[?@ > `5`]", "recs[*].id", "recs[?k == `1`].id", "recs[].v[]", "xs[::2]", "xs[::-1]", "xs[1:-1]", "xs[-1]", "xs[0]",
+        "recs[*].v[0]", "recs[*].[id, k]", "recs[*].{a: id}", "nest[][]", "xs | [0]", "recs[-1].id", "xs[*] | [-1]", "recs[?v[0] == id].k", "xs == xs", "recs[*].v | [][]",
+        "xs[-3:]", "xs[:3]", "recs[?k != `0`] | [-1].id", "nest[*][*] | [][] | [-1]",
+    ];
+    let mut sizes: Vec<usize> = (0..=130).collect();
+    sizes.extend_from_slice(&[255, 256, 257, 511, 512, 513, 1000, 1023, 1024, 1025]);
+    let trees: Vec<_> = EXPRS.iter().map(|t| parse(t, strict).expect("sweep expression parses")).collect();
+    let compiled: Vec<_> = EXPRS.iter().map(|t| jmespath::compile(t)).collect();
+    for (si, &n) in sizes.iter().enumerate() {
+        if si as u64 % args.shards != args.shard {
+            continue;
+        }
+        let doc = json!({
+            "xs": (0..n as i64).collect::<Vec<i64>>(),
+            "recs": (0..n as i64).map(|i| json!({"id": i, "k": i % 3, "v": [i]})).collect::<Vec<Value>>(),
+            "nest": (0..n as i64).map(|i| json!([[i], [i, i]])).collect::<Vec<Value>>(),
+        });
+        let input = rcvar_of(&doc);
+        for (k, text) in EXPRS.iter().enumerate() {
+            rep.evaluations += 1;
+            let want = ev.eval(&trees[k], &doc);
+            let got = match &compiled[k] {
+                Ok(e) => guarded(|| e.search(&input)),
+                Err(e) => {
+                    rep.violation("C01/valid-expression-rejected", json!({"expression": text, "error": err_json(e)}));
+                    continue;
+                }
+            };
+            let ok = match (&want, &got) {
+                (Ok(x), Ok(Ok(g))) => value_of(g).map_or(false, |g| refimpl::json::val_eq(x, &g, 0.0)),
+                _ => false,
+            };
+            if ok {
+                rep.count("size_sweep_ok");
+                if n > 1 {
+                    rep.nontrivial(refimpl::rng::fnv(format!("size|{}|{}", text, n).as_bytes()));
+                }
+            } else {
+                let shorten = |s: String| if s.len() > 400 { format!("{}… ({} bytes)", s.chars().take(400).collect::<String>(), s.len()) } else { s };
+                rep.violation(
+                    "C01/mismatch/array-size-sweep",
+                    json!({"expression": text, "array_length": n, "expected": shorten(format!("{:?}", want.as_ref().map(|v| v.to_string()).map_err(|e| e.class()))),
+                           "got": shorten(format!("{:?}", got.map(|r| r.map(|v| v.to_string()).map_err(|e| e.to_string()))))}),
+                );
+            }
+        }
+    }
+}
+
 pub fn run(args: &Args) {
     let mut rep = Report::new("C01");
     let strict = Opts::strict();
@@ -213,6 +268,7 @@ pub fn run(args: &Args) {
     let maxlen: u32 = args.kv.get("enum-len").and_then(|v| v.parse().ok()).unwrap_or(3);
     enumerate_small(&mut rep, args, &ev, maxlen);
     close_number_ordering(&mut rep, args);
+    size_sweep(&mut rep, args, &ev, &strict);
     let cdocs = crate::refcheck::compliance_docs();
     for i in 0..args.n {
         let mut rng = Rng::derive(args.seed, args.shard, i);
